@@ -24,7 +24,7 @@ theorem C16_count (src : Array UInt8) (off : Nat) (len : UInt64) (hsz : off + le
     induction k generalizing p with
     | zero => rfl
     | succ k ih => simp [bl, ih]
-  have hrun := loop_run src off len hsz len.toNat (len.toNat + 1) 0 0 0 0 0 (by simp) (by omega) (by simp)
+  have hrun := refLoop_run src off len hsz len.toNat (len.toNat + 1) 0 0 0 0 (by simp) (by omega) (by simp)
     (by have := len.toNat_lt; simp; omega)
   simp only at hrun
   have hc := runD_count len.toNat (bl src off len.toNat 0) (by omega) 0
@@ -35,7 +35,9 @@ theorem C16_count (src : Array UInt8) (off : Nat) (len : UInt64) (hsz : off + le
   show match Spec.Utf8.countFuel len.toNat (bl src off len.toNat 0) with
     | some n => (_cbor_unicode_codepoint_count src off len st0).1.toNat = n ∧ (_cbor_unicode_codepoint_count src off len st0).2.status = _CBOR_UNICODE_OK
     | none => (_cbor_unicode_codepoint_count src off len st0).1 = 0 ∧ (_cbor_unicode_codepoint_count src off len st0).2.status = _CBOR_UNICODE_BADCP
-  unfold _cbor_unicode_codepoint_count
+  -- the generated function is used only through `count_eq_ref` (it equals the hand-written reference `refCount`)
+  rw [(count_eq_ref src off len st0).1]
+  unfold refCount
   simp only
   cases hcf : Spec.Utf8.countFuel len.toNat (bl src off len.toNat 0) with
   | some n =>
@@ -48,18 +50,18 @@ theorem C16_count (src : Array UInt8) (off : Nat) (len : UInt64) (hsz : off + le
     simp only [Option.map_none] at hrun
     obtain ⟨_, h | ⟨h1, h2⟩⟩ := hrun
     · simp [h, _CBOR_UNICODE_BADCP]
-    · simp [h1, h2, _CBOR_UNICODE_BADCP]
+    · have h2' : ¬ (refLoop src off len (len.toNat + 1) 0 0 0 0).1.2.1.toNat = 0 :=
+        fun h => h2 (UInt32.toNat_inj.mp (by simpa using h))
+      simp [h1, h2', _CBOR_UNICODE_BADCP]
 
 /-- no read outside the string, table indices in range, shift amounts in range, loop fuel sufficient -/
 theorem C16_safe (src : Array UInt8) (off : Nat) (len : UInt64) (hsz : off + len.toNat ≤ src.size)
     (st0 : S__cbor_unicode_status) : _cbor_unicode_codepoint_count.ok src off len st0 = true := by
-  have hrun := loop_run src off len hsz len.toNat (len.toNat + 1) 0 0 0 0 0 (by simp) (by omega) (by simp)
+  have hrun := refLoop_run src off len hsz len.toNat (len.toNat + 1) 0 0 0 0 (by simp) (by omega) (by simp)
     (by have := len.toNat_lt; simp; omega)
   simp only at hrun
-  unfold _cbor_unicode_codepoint_count.ok
-  simp only
-  repeat' split
-  all_goals exact hrun.1
+  rw [(count_eq_ref src off len st0).2]
+  exact hrun.1
 
 /-- the count never exceeds the byte length (the `CBOR_ASSERT` in `cbor_string_set_handle`) -/
 theorem count_le_length : ∀ (n : Nat) (bs : List Nat) (c : Nat), Spec.Utf8.countFuel n bs = some c → c ≤ bs.length := by
